@@ -34,7 +34,7 @@ add("C01", "other",
     "globals (StmtSem/StmtRel/StmtVM/CallVM/StmtCorrect/StmtTop.v): blocks, if, if/else and while with pure conditions, nested without bound, "
     "and user-level calls of the built-ins write(e), toa(e), aton(e), read() as statements and as right sides of assignments "
     "(the CALL/RET protocol: frame, closure stack, return address; the written output and the unread input are part of the world "
-    "a statement acts on), and calls of user functions of one parameter whose body is a pure expression of the parameter and the "
+    "a statement acts on), and calls of user functions of any number of parameters whose body is a pure expression of the parameters and the "
     "globals (LExprCorrect.v: expressions with local variables in every context inside an activation; premise: the body's code lies "
     "at the function's entry point, established by computation through sound checkers), "
     "compiled in value position and in discarded position (both code-generation strategies of each construct, negated-condition "
@@ -42,8 +42,8 @@ add("C01", "other",
     "semantics ssem - which Sem.eval computes with the same fuel - defines a statement, the compiled code run by the VM model "
     "ends with that value or error class and that world (globals, output written, input left), in REPL mode and file mode, over whole sessions "
     "(C01_statement_sessions_partial; C01_statement_sem_vs_vm ties Sem.eval and the run through worlds that agree off the built-in "
-    "names, which the two sides bind to different representations). Not proved: user functions beyond one-parameter expression "
-    "bodies, definitions as statements, exit, calls nested in expressions, generators, closures "
+    "names, which the two sides bind to different representations). Not proved: user functions whose bodies are not expressions, "
+    " definitions as statements, exit, calls nested in expressions, generators, closures "
     "(full statement: C01_compile_correct_statement). The property is "
     "decided each run by differential testing: generated sessions are run on the real code and compared, inside Coq, with Sem "
     "(property oracle) and with the compiler/VM model (correspondence; bytecode-level agreement of the compiler model was "
